@@ -24,7 +24,8 @@ is extended by GRACE steps at a time and raises again each time that allowance i
 ``finally`` blocks may run but a loop that swallows BaseException is still stopped.
 
 Outside a ``with`` block the local events are switched off again (code objects run uninstrumented:
-zero overhead).  One budget at a time: nesting raises RuntimeError (a harness error).
+zero overhead) unless a ``hold()`` block is open (see there).  One budget at a time: nesting raises
+RuntimeError (a harness error).
 """
 from __future__ import annotations
 
@@ -45,6 +46,7 @@ _tool_id = None
 _codes = None          # list of code objects of the mouette package
 _enabled = False
 _active = None         # the StepBudget currently counting
+_holds = 0             # number of open hold() blocks (events stay switched on between budgets)
 # [count, next_trip, limit] - a list (not attributes) keeps the callbacks short and fast
 _st = [0, 1 << 62, 1 << 62]
 
@@ -229,7 +231,31 @@ class StepBudget:
         self.steps = _st[0]
         _st[1] = 1 << 62
         _active = None
-        if _enabled:
+        if _enabled and _holds == 0:
+            _set_events(0)
+            _enabled = False
+        return False
+
+
+class hold:
+    """Keep the package instrumented across several StepBudget blocks (e.g. one simulated run):
+    switching ~10^3 code objects on and off costs ~1.5 ms, which a run with dozens of budgeted calls
+    should pay once, not per call.  Between budgets the callbacks only bump a counter nobody reads.
+    Leaving the outermost hold switches the events off again."""
+
+    def __enter__(self):
+        global _holds, _enabled
+        _install()
+        _holds += 1
+        if not _enabled:
+            _set_events(_EVENTS)
+            _enabled = True
+        return self
+
+    def __exit__(self, et, ev, tb):
+        global _holds, _enabled
+        _holds -= 1
+        if _holds == 0 and _active is None and _enabled:
             _set_events(0)
             _enabled = False
         return False
